@@ -31,7 +31,7 @@ theorem tr_congr (st : Style) (o o' : Opts) (h : o.fieldConstraints = o'.fieldCo
   | _, .anyOf alts => by simp [tr, trAlts_congr st o o' h alts]
   | _, .oneOf alts => by simp [tr, trAlts_congr st o o' h alts]
   | ctx, .allOf refs props req xreq => by
-    simp only [tr, trProps_congr st o o' h (req ++ xreq) props]
+    simp only [tr, trProps_congr st o o' h req props]
 theorem trProps_congr (st : Style) (o o' : Opts) (h : o.fieldConstraints = o'.fieldConstraints)
     (req : List (List Char)) :
     ∀ ps : List (List Char × Schema), trProps st o req ps = trProps st o' req ps
